@@ -6,10 +6,13 @@ CONSTANTS
   MaxTape = 400
   Chunks = {"c1", "c2"}
   AttrVals = {1, 2}
+  Handles = {}
+  HandleFlags = {}
   MaxContent = 2
   RS = 4
   Depth = 9
   RODepth = 16
+  HBias = 0
   OkBias = 90
   Shape <- MCShape
   ChunkBlocks <- MCChunkBlocks
